@@ -64,6 +64,10 @@ pub(crate) struct SessimCtx {
     /// The real reader-side handler, bound to this session's flag and channel.
     pub(crate) deliver: Option<Rc<dyn Fn(&str)>>,
     pub(crate) raw_flag: Option<Arc<AtomicBool>>,
+    /// A mid-step interrupt is due at hook H2b of the current step.
+    pub(crate) pending_mid: bool,
+    /// The next step seen by H2 will be stopped by a mid-step interrupt, not executed.
+    pub(crate) skip_next_hash: bool,
 }
 
 thread_local! {
@@ -126,6 +130,30 @@ pub(crate) fn on_eval_step(
     }
 }
 
+/// Hook H2b: called once per evaluation step after the evaluator's interrupt
+/// check (and limit checks), immediately before the step is executed.
+#[inline]
+pub(crate) fn on_eval_step_started(_env: &mut Env, _session: &Session) {
+    if MODE.load(Ordering::Relaxed) != MODE_SESSIM {
+        return;
+    }
+    let d = SESSIM.with(|c| {
+        let mut b = c.borrow_mut();
+        let ctx = b.as_mut()?;
+        if !ctx.pending_mid {
+            return None;
+        }
+        ctx.pending_mid = false;
+        ctx.skip_next_hash = true;
+        ctx.deliver.as_ref().map(Rc::clone)
+    });
+    if let Some(d) = d {
+        SESSIM.with(|c| c.borrow_mut().as_mut().unwrap().in_reader = true);
+        d("{\"method\":\"interrupt\"}");
+        SESSIM.with(|c| c.borrow_mut().as_mut().unwrap().in_reader = false);
+    }
+}
+
 fn sessim_step(
     env: &mut Env,
     _session: &Session,
@@ -152,7 +180,27 @@ fn sessim_step(
                 return Act::Raw(Arc::clone(f));
             }
         }
-        if let Some(pf) = ctx.plan.iter().find(|pf| pf.at == step).cloned() {
+        let mut mid = false;
+        if let Some(pf) = ctx.plan.iter().find(|pf| pf.at == step && pf.kind == "mid").cloned() {
+            // The interrupt arrives WHILE this step executes: it is delivered from hook
+            // H2b, after the evaluator's own check at the top of the step.
+            ctx.fired.push((
+                pf.kind.clone(),
+                step,
+                format!("{:?}", expr_state),
+                debug_head(&outer_expr.expr_),
+                env.stack.0.len(),
+            ));
+            ctx.pending_mid = true;
+            mid = true;
+        }
+        if ctx.skip_next_hash {
+            // the previous step's mid-step interrupt is consumed by this step's check:
+            // this step is not executed now
+            ctx.skip_next_hash = false;
+            return Act::None;
+        }
+        if let Some(pf) = ctx.plan.iter().find(|pf| pf.at == step && !mid).cloned() {
             let n = if pf.kind == "double" { 2 } else { 1 };
             ctx.fired.push((
                 pf.kind.clone(),
